@@ -131,6 +131,9 @@ class GenericContextProvider(RoleProvider):
                     ):
                         old_state_container.BindingMdibVersion = mgr.new_mdib_version
                         old_state_container.BindingStartTime = time.time()
+                        # a new association period begins: unbinding data of an earlier period is obsolete
+                        old_state_container.UnbindingMdibVersion = None
+                        old_state_container.BindingEndTime = None
                         handles = self._mdib.xtra.disassociate_all(
                             entity,
                             unbinding_mdib_version=mgr.new_mdib_version,
